@@ -42,7 +42,7 @@ Example ex_history :
   forallb (@no_partial_revert Z unit unit) ex_ops = true /\
   snd (run_now ex_g ex_sem (init_store ex_g) ex_ops) = [Done; Done; Done; Ok (-7); Done; Ok (-187); Done] /\
   snd (step_now ex_g ex_sem (fst (run_now ex_g ex_sem (init_store ex_g) ex_ops)) (Get 0 (ex_pos 5))) = Ok (-7).
-Proof. repeat split; vm_compute; reflexivity. Qed.
+Proof. split; [vm_compute; reflexivity | split; vm_compute; reflexivity]. Qed.
 
 (** ... hence, by the composed theorem, -7 is the by-name from-scratch value of "s" for the independent values the
     state holds after the rejection (x1 = 10 again). *)
